@@ -468,10 +468,23 @@ func ClientCheck(sc sim.CScenario, h *sim.CHistory) []Problem {
 				V      string          `json:"jsonrpc"`
 				Params json.RawMessage `json:"params"`
 			}
-			if json.Unmarshal(it, &m) != nil || m.Method == "" || m.V != "2.0" {
+			if json.Unmarshal(it, &m) != nil || m.Method == "" {
 				continue
 			}
-			delivered := stopSeq < 0 || e.Seq < stopSeq
+			// a request that is malformed in some way (no version marker, scalar
+			// parameters, an unknown member) may or may not reach a handler: the
+			// property only says what it must not do to the client's own calls
+			malformed := m.V != "2.0" || (len(m.Params) > 0 && m.Params[0] != '{' && m.Params[0] != '[')
+			if ms, ok := refjson.Members(it); ok {
+				for _, kv := range ms {
+					switch kv.Key {
+					case "jsonrpc", "id", "method", "params":
+					default:
+						malformed = true
+					}
+				}
+			}
+			delivered := (stopSeq < 0 || e.Seq < stopSeq) && !malformed
 			tab, k := callReqs, strings.Trim(string(m.ID), `"`)
 			if len(m.ID) == 0 {
 				tab, k = noteReqs, string(m.Params)
